@@ -585,3 +585,49 @@ Example C16_reads_nonvacuous :
   | None => false
   end = true.
 Proof. vm_compute. reflexivity. Qed.
+
+(* ===================================================================== round 6 strengthening: selection, then decode *)
+(* decode o select = select o decode for the extractor model: for ANY buffer (valid or not) and ANY index list, the
+   columns (and the interval view) of the selected object t[idx] — a new extractor over the same bytes with
+   starts[idx], ends[idx] — are the parent's decoded rows picked by idx, in idx's order; chained selections compose:
+   t[a][c] = t[a composed with c]; and the fields of a selection as `decode_selected` (what Corr.model_ok evaluates)
+   computes them are exactly decode_buf of the selected object.  Nothing computed for one object is reused for
+   another: each object's columns are a function of its own starts only. *)
+Theorem C16_decode_select_commute :
+  forall v names b idx,
+    decode_buf v names (select_buf b idx) = select (decode_buf v names b) idx
+    /\ intervals_buf v names (select_buf b idx) = select (intervals_buf v names b) idx
+    /\ (Forall (fun i => 0 <= i < len (bf_starts b)) idx ->
+          decode_selected v names b idx = Some (decode_buf v names (select_buf b idx))
+          /\ forall c, select (select (bf_starts b) idx) c = select (bf_starts b) (select idx c)).
+Proof.
+  exact (fun v names b idx =>
+    conj (proj1 (decode_select_commute v names b idx))
+      (conj (proj2 (decode_select_commute v names b idx))
+        (fun H => conj (decode_selected_as_buf v names b idx H) (fun c => select_select (bf_starts b) idx c H)))).
+Qed.
+Print Assumptions C16_decode_select_commute.
+
+(* on a valid file: every column and the interval view of a selection, and of a selection of a selection, are the spec
+   values of exactly the selected records in the selection's order (mask / permutation / repeats / slice = index lists) *)
+Theorem C16_selection_decodes :
+  forall names rs a c, Forall (rec_valid 65536) rs -> Forall (fun i => 0 <= i < len rs) a ->
+    decode_buf repaired names (select_buf (buf_of rs) a) = map (fun r => spec_orec repaired r names) (select rs a)
+    /\ intervals_buf repaired names (select_buf (buf_of rs) a) = map (fun r => spec_oiv repaired r names) (select rs a)
+    /\ decode_buf repaired names (select_buf (select_buf (buf_of rs) a) c)
+       = map (fun r => spec_orec repaired r names) (select (select rs a) c)
+    /\ intervals_buf repaired names (select_buf (select_buf (buf_of rs) a) c)
+       = map (fun r => spec_oiv repaired r names) (select (select rs a) c).
+Proof. exact (selection_decodes repaired 65536 (Z.le_refl _) cb_repaired). Qed.
+Print Assumptions C16_selection_decodes.
+
+(* non-vacuity: on the example file, t[[2;0;2]] and t[[2;0;2]][[1;1;0]] decode to records 2,0,2 and 0,0,2 *)
+Example C16_selection_nonvacuous :
+  let names := map fst ex_refs in
+  all2 (rec_matches ex_refs) (select ex_recs [2; 0; 2]) (decode_buf repaired names (select_buf (buf_of ex_recs) [2; 0; 2]))
+  && all2 (rec_matches ex_refs) (select ex_recs [0; 0; 2])
+          (decode_buf repaired names (select_buf (select_buf (buf_of ex_recs) [2; 0; 2]) [1; 1; 0]))
+  && all2 (iv_matches ex_refs) (select ex_recs [0; 0; 2])
+          (intervals_buf repaired names (select_buf (select_buf (buf_of ex_recs) [2; 0; 2]) [1; 1; 0]))
+  && (len (select ex_recs [0; 0; 2]) =? 3) = true.
+Proof. vm_compute. reflexivity. Qed.
